@@ -21,6 +21,12 @@ func vSmallBitstream(kind, plen int) (bs []byte, w, h int, la bool) {
 //   0 simple VP8, 1 simple VP8L, 2 VP8X+VP8, 3 VP8X+ALPH+VP8, 4 VP8X+VP8L, 5 VP8X+ICCP+VP8+EXIF+XMP,
 //   6 VP8X+unknown+VP8, 7 VP8X+ICCP+ALPH+VP8
 func vStillFile(layout, plen, alen int) (file []byte, w, h int) {
+	return vStillFileCanvas(layout, plen, alen, false)
+}
+
+// vStillFileCanvas: with freeCanvas the VP8X canvas of the extended layouts is symbolic and independent of
+// the bitstream's dimensions (a file some other writer may produce; Decode is free to reject it).
+func vStillFileCanvas(layout, plen, alen int, freeCanvas bool) (file []byte, w, h int) {
 	kind := 0
 	if layout == 1 || layout == 4 {
 		kind = 1
@@ -35,7 +41,11 @@ func vStillFile(layout, plen, alen int) (file []byte, w, h int) {
 		return vRIFF(img), w, h
 	}
 	flags := verifapi.U8("vp8x_flags") & 0x3c // alpha/ICC/EXIF/XMP bits arbitrary (may over- or under-state), no animation
-	x := vVP8X(flags, w, h)                    // well-formed still: canvas = image size
+	cw, ch := w, h // well-formed still: canvas = image size
+	if freeCanvas {
+		cw, ch = int(verifapi.U32("canvas_w")&0xffffff)+1, int(verifapi.U32("canvas_h")&0xffffff)+1
+	}
+	x := vVP8X(flags, cw, ch)
 	switch layout {
 	case 2, 4:
 		return vRIFF(x, img), w, h
@@ -53,7 +63,19 @@ func vStillFile(layout, plen, alen int) (file []byte, w, h int) {
 // VerifH_C16_Still: for every still file Decode accepts, DecodeConfig and GetFeatures succeed and
 // report the decoded image's size and colour model; the container views agree.
 func VerifH_C16_Still(layout, plen, alen int) {
-	file, w, h := vStillFile(layout, plen, alen)
+	vC16Still(layout, plen, alen, false)
+}
+
+// VerifH_C16_StillCanvas: the first sentence of the property on extended stills whose VP8X canvas is
+// arbitrary: whenever Decode accepts such a file, DecodeConfig and GetFeatures report the size and colour
+// model of the image Decode returns (the views of the demuxer and the animation reader are only compared
+// on well-formed files, where the canvas equals the image size).
+func VerifH_C16_StillCanvas(layout, plen, alen int) {
+	vC16Still(layout, plen, alen, true)
+}
+
+func vC16Still(layout, plen, alen int, freeCanvas bool) {
+	file, w, h := vStillFileCanvas(layout, plen, alen, freeCanvas)
 	img, err := Decode(bytes.NewReader(file))
 	if err != nil {
 		return
@@ -80,6 +102,9 @@ func VerifH_C16_Still(layout, plen, alen int) {
 	verifapi.Assert(feat.Format == wantFmt, "format name")
 	// image.Decode / image.DecodeConfig dispatch: the registered magic matches this file
 	verifapi.Assert(string(file[0:4]) == "RIFF" && string(file[8:12]) == "WEBP", "file matches the registered magic RIFF????WEBP")
+	if freeCanvas {
+		return
+	}
 	// the other container views agree
 	d, derr := mux.NewDemuxer(file)
 	verifapi.Assert(derr == nil, "demuxer accepts the file")
